@@ -29,6 +29,11 @@ POOL_SEEDS = (
     "kio.schema.update_metadata.v8.request", "kio.schema.leader_and_isr.v7.request", "kio.schema.consumer_group_describe.v0.response", "kio.schema.list_offsets.v8.response",
     "kio.schema.broker_registration.v3.request", "kio.schema.describe_cluster.v1.response", "kio.schema.consumer_group_heartbeat.v0.response",
     "kio.schema.begin_quorum_epoch.v1.response", "kio.schema.vote.v1.response", "kio.schema.describe_topic_partitions.v0.response",
+    # several versions of the same class names (a plan cached under the wrong key would be reused across them)
+    "kio.schema.fetch.v4.response", "kio.schema.fetch.v11.response", "kio.schema.fetch.v13.response", "kio.schema.fetch.v17.request", "kio.schema.fetch.v3.request",
+    "kio.schema.metadata.v1.response", "kio.schema.metadata.v5.response", "kio.schema.metadata.v9.response", "kio.schema.metadata.v4.request",
+    "kio.schema.produce.v3.response", "kio.schema.produce.v8.response", "kio.schema.produce.v3.request", "kio.schema.create_topics.v2.response", "kio.schema.create_topics.v4.request",
+    "kio.schema.api_versions.v4.response", "kio.schema.request_header.v0.header", "kio.schema.list_offsets.v1.response", "kio.schema.offset_fetch.v1.response",
 )
 
 
